@@ -19,6 +19,10 @@ CLAIMS = {
  "C10": ("model_checking", "5/C10", "Classification/atomicity property C10_Step model-checked on all (state, key, size) combinations incl. simultaneous failure conditions; replay compares variant, numeric fields, identity of the returned pair and the untouched state; trace validation on random states."),
  "C11": ("model_checking", "5/C11", "C11_Step model-checked for shrink/equal/grow-fits/grow-evicts/overflow at every position; replay compares result forwarding, closure-ran flag, error fields, identity and post-state."),
  "C13": ("model_checking", "5/C13", "C13_Step/C13_Virgin/C13_GrowthBound model-checked with hashbrown's capacity arithmetic transcribed; replay compares capacity and bucket count exactly after every edge incl. overflow and injected allocator refusal; traces reach tombstone-heavy tables."),
+ "C12": ("model_checking", "5/C12", "Iterator sub-machine (IterYields/IterRest + declarative C12_Step: front prefix, back prefix of the reverse, each entry once, None only after exhaustion and then forever) model-checked for all words over {next,next_back} up to len+2 (quick) / len+3 (thorough) and all 7 kinds; every such run replayed on the real iterators comparing yields by object identity, post-state, drops of unconsumed entries."),
+ "C14": ("model_checking", "5/C14", "Two-cache model: clone in every state then every operation on either cache with the frame condition (other cache unchanged) as an action property; replay compares the clone's entries, order, recorded sizes, sizes, capacity and the identity of its objects (fresh clones of the source's), and the structural fingerprint of the other cache after every call."),
+ "C16": ("model_checking", "5/C16", "Crash points as events: for sampled edges of the bounded model a panic is injected at the n-th hash / eq / size / clone / closure callback for every n until the operation completes, followed by continued use and drop; TLC validates each crash event against the declarative CrashBad consistency predicate (structure well-formed, sizes sum, no double drop, no invented/lost entries for closure panics) and every later step against the ordinary specification."),
+ "C17": ("model_checking", "5/C17", "Every (state, iterator kind, word, forget) edge of the iterator model is executed on the real cache as its own segment followed by continued use and drop; TLC validates the declarative ForgetBad predicate (valid cache, nothing yielded still inside, conservation of objects, no registry anomaly) and all later steps."),
  "C15": ("model_checking", "5/C15", "C15_Step for every subset of present keys in every model state; replay compares predicate call sequence (with object identity), survivors, drops and sizes."),
  "C19": ("model_checking", "5/C19", "C19_Step (read operations are stuttering steps) model-checked; replay/trace additionally require the structural fingerprint (node addresses, links, recorded sizes, seal, table) to be identical before and after every shared-reference call."),
  "C20": ("model_checking", "5/C20", "Hash-count upper bound HashBound model-checked against the constructive bound; replay/trace compare the measured number of Hash::hash calls of every operation with the bound (upper bound only)."),
